@@ -6,7 +6,7 @@
    functional definition), StandardExamples (6.10.3.5 verbatim), <>Finished under
    weak fairness.  Sensitivity control: with HideFix = FALSE (a function-like
    expansion forgets its own name) TLC must find the non-terminating behaviour.
-2. Generate -> replay: every finished behaviour of the families F1..F6 is one
+2. Generate -> replay: every finished behaviour of the families F1..F7 is one
    input; `chibicc -E` of the tree under test must print exactly the expected
    pp-token spellings (harness tokenizer, validated against Lexer.tla by C19 and
    here on a sample); a per-process timeout decides termination.  Inputs whose
@@ -23,7 +23,7 @@ _LOCK = threading.Lock()
 
 # family -> (number of cases, quick stride, thorough stride); strides are primes that do not divide the radices
 FAMS = {"F1": (140544, 127, 1), "F2": (44376, 53, 1), "F3": (6615, 11, 1), "F4": (8077, 7, 1), "F5": (21, 1, 1), "F6": (26, 1, 1),
-        "F7": (36980, 47, 1)}
+        "F7": (36980, 97, 1)}
 
 EXTRAS = [   # closed hand-written list: expansion next to directives, shape of the remaining predefined dynamic macros
     ("emptyexp-then-directive", "#define E\nx E\n#define Y 1\nY\n", ["x", "1"]),
